@@ -21,7 +21,109 @@ def main():
     r = subprocess.run(["/venv/bin/python", "-c", "import numpy, tskit, msprime; print('venv ok')"], capture_output=True, text=True)
     print(r.stdout.strip() or r.stderr.strip()[-200:])
     ok = ok and r.returncode == 0
+    ok = engine_regressions("--fast" in sys.argv) and ok
     return 0 if ok else 1
+
+
+def _scratch_repo(edit):
+    """copy of the source SNAPSHOT vt/selfcheck_src/tsdate (tsdate at /repo 67c51f9, used by these engine
+    regressions only -- every check reads $VERIF_REPO) under a temporary directory, changed by edit(dir)"""
+    import os
+    import tempfile
+    d = tempfile.mkdtemp(prefix="vt_selfcheck_")
+    shutil.copytree(os.path.join(os.path.dirname(os.path.abspath(__file__)), "selfcheck_src", "tsdate"),
+                    os.path.join(d, "tsdate"))
+    if edit is not None:
+        edit(d)
+    return d
+
+
+def engine_regressions(fast):
+    """Deliberately broken bodies must FAIL their obligations (an engine that proves everything proves nothing):
+    each generator is run on the unchanged source (must pass) and on a scratch copy with a known property-breaking
+    change (must report the named obligation)."""
+    import os
+    from . import VERIF
+    ok = True
+    saved = os.environ.get("VERIF_REPO")
+
+    def with_repo(d, f):
+        os.environ["VERIF_REPO"] = d
+        try:
+            return f()
+        finally:
+            if saved is None:
+                os.environ.pop("VERIF_REPO", None)
+            else:
+                os.environ["VERIF_REPO"] = saved
+
+    # ---- G2: an absolute tolerance added to a variance must be a failed dimensional obligation
+    import contracts.dims  # noqa: F401
+    from . import dim
+
+    def g2(name):
+        r = dim.check(dim.DIM_REGISTRY[name])
+        return r.error, [o for o in r.obligations if o["verdict"] != "proved"], len(r.obligations)
+    d0 = _scratch_repo(None)
+    err, bad, n = with_repo(d0, lambda: g2("approx.approximate_gamma_mom"))
+    good = err is None and not bad and n > 0
+    print(f"G2 unchanged approximate_gamma_mom: {n} obligations, {len(bad)} failed, error={err}")
+
+    def edit_mom(d):
+        p = os.path.join(d, "tsdate", "approx.py")
+        s = open(p).read()
+        assert "shape = mean**2 / variance" in s
+        open(p, "w").write(s.replace("shape = mean**2 / variance", "shape = mean**2 / (variance + 1e-12)"))
+    d = _scratch_repo(edit_mom)
+    err, bad, n = with_repo(d, lambda: g2("approx.approximate_gamma_mom"))
+    shutil.rmtree(d)
+    caught = err is None and any(o["kind"] == "add" for o in bad)
+    print(f"G2 broken approximate_gamma_mom (variance + 1e-12): {len(bad)} failed -> {'caught' if caught else 'MISSED'}")
+    ok = ok and good and caught
+
+    # ---- G3: the seeded C34 change (options forwarded only when truthy) must fail option-*-reaches-api
+    patch = os.path.join(VERIF, "seeded", "C34", "patch.diff")
+    if os.path.exists(patch):
+        from . import g3, runner
+
+        def g3run():
+            ctx = runner.Ctx("C34", "quick", 0)
+            g3.cli_contract(g3.G3(ctx))
+            return {o.name: o.verdict for o in ctx.obs}
+        base = with_repo(d0, g3run)
+        good = base.get("cli.run_date:option-max_iterations-reaches-api") == "proved"
+
+        def edit_cli(d):
+            subprocess.run(["patch", "-p1", "-s", "--no-backup-if-mismatch", "-i", patch], cwd=d, check=True)
+        d = _scratch_repo(edit_cli)
+        seeded = with_repo(d, g3run)
+        shutil.rmtree(d)
+        caught = seeded.get("cli.run_date:option-max_iterations-reaches-api") == "refuted"
+        print(f"G3 cli.run_date option forwarding: unchanged {'proved' if good else 'NOT proved'}; seeded C34 -> "
+              f"{'caught' if caught else 'MISSED'}")
+        ok = ok and good and caught
+    shutil.rmtree(d0)
+    if fast:
+        return ok
+
+    # ---- G1 (slow, not part of setup): the seeded C01 change must leave an obligation of _constrain_ages undischarged
+    patch = os.path.join(VERIF, "seeded", "C01", "patch.diff")
+    if os.path.exists(patch):
+        from . import runner
+
+        def g1run():
+            ctx = runner.Ctx("C01", "quick", 0)
+            runner.run_g1(ctx, ["util._constrain_ages"])
+            return [o for o in ctx.obs if o.verdict not in runner.PROVED]
+
+        def edit_util(d):
+            subprocess.run(["patch", "-p1", "-s", "--no-backup-if-mismatch", "-i", patch], cwd=d, check=True)
+        d = _scratch_repo(edit_util)
+        bad = with_repo(d, g1run)
+        shutil.rmtree(d)
+        print(f"G1 seeded C01 on _constrain_ages: {len(bad)} obligation(s) not discharged -> {'caught' if bad else 'MISSED'}")
+        ok = ok and bool(bad)
+    return ok
 
 
 if __name__ == "__main__":
